@@ -216,18 +216,24 @@ def main():
     ap.add_argument("--seed", type=int, default=1)
     ap.add_argument("--out", required=True)
     ap.add_argument("--files")
+    ap.add_argument("--skip", help="result file(s), comma separated: sites already mutated there are left out")
     ap.add_argument("--recheck", help="re-run only the mutants of this result file that survived suite and checks (same file / site index)")
     a = ap.parse_args()
     amap = anchors()
     files = sorted(amap) if not a.files else a.files.split(",")
     r = random.Random(a.seed)
+    done = set()
+    for fn in (a.skip.split(",") if a.skip else []):
+        for l in open(fn):
+            x = json.loads(l)
+            done.add((x["file"], x["site"]))
     todo = []
     for rel in files:
         p = os.path.join("/repo", rel)
         if not os.path.exists(p):
             continue
         n = count_sites(open(p).read())
-        idx = list(range(n))
+        idx = [i for i in range(n) if (rel, i) not in done]
         r.shuffle(idx)
         todo += [(rel, i) for i in idx[: a.per_file]]
     if a.recheck:
